@@ -527,7 +527,8 @@ def gen_op(rng, weights=None):
 
 def gen_programs(rng, nthreads, maxops):
     while True:
-        ps = [[gen_op(rng) for _ in range(rng.randrange(1, maxops + 1))] for _ in range(nthreads)]
+        ps = [[gen_op(rng) for _ in range(rng.choice([maxops, maxops, rng.randrange(1, maxops + 1)]))]
+              for _ in range(nthreads)]
         kinds = {op[0] for p in ps for op in p}
         if "read" in kinds and ("feed" in kinds or "close" in kinds):
             return ps
@@ -666,15 +667,15 @@ def run(ctx):
 
 def _run(ctx, rng):
     work = Work()
-    cap = 60000 if ctx.thorough else 8000
-    budget = 400000 if ctx.thorough else 30000        # executions spent on enumeration
-    nrandom_sets = 160 if ctx.thorough else 30
+    cap = 30000 if ctx.thorough else 8000
+    budget = 150000 if ctx.thorough else 30000        # executions spent on enumeration
+    nrandom_sets = 120 if ctx.thorough else 30
     nsample = 5 if ctx.thorough else 1
     for k, programs in enumerate(CURATED):
         check_programs(ctx, programs, cap, rng, work, "curated-%d" % k, nsample)
     for k in range(nrandom_sets):
         nthreads = rng.choice([2, 3, 3])
-        programs = gen_programs(rng, nthreads, 3 if nthreads == 2 else rng.choice([2, 2, 3]))
+        programs = gen_programs(rng, nthreads, 3 if nthreads == 2 or ctx.thorough else rng.choice([2, 3]))
         if work.executed < budget:
             check_programs(ctx, programs, cap, rng, work, "random-%dthr" % nthreads, nsample)
     ctx.notes.append("%d program sets, %d enumerated exhaustively (all maximal interleavings); %d schedules executed "
